@@ -927,7 +927,7 @@ MUTATIONS = ["trunc", "hdr_tie", "hdr_badsig", "hdr_badver", "rlog_badsig", "rlo
              "otab_cycle", "ktab_badsig", "ktab_seq_tie", "entry_size0", "entry_small", "entry_big", "doff0", "doff_big",
              "bad_utf8", "bad_utf16", "type_unknown", "dangling_parent", "parent_free", "self_parent", "cycle2",
              "dup_key", "fop_unknown", "fop_big", "fop_scalar", "inline_len_big", "tail_short", "flip", "file_dup",
-             "leaf_parent"]
+             "leaf_parent", "free_size0"]
 
 
 def _live(case):
@@ -1032,6 +1032,14 @@ def mutate(rng, base, name):
             (t1, e1), (t2, e2) = rng.sample(nodes, 2)
             e1["pidx"], e1["poff"] = t2["index"], e2["off"]
             e2["pidx"], e2["poff"] = t1["index"], e1["off"]
+    elif name == "free_size0":
+        # a free slot of size 0: the walk over the table must still end (a zero size ends the table for every type)
+        frees = [(t, e) for t in c["ktabs"] for e in t["entries"] if (e["type"] & 0xFF) == T_FREE]
+        if not frees:
+            ok = False
+        else:
+            tf, ef = rng.pick(frees)
+            ef["size"] = 0
     elif name == "parent_free":
         frees = [(t, e) for t in c["ktabs"] for e in t["entries"] if (e["type"] & 0xFF) == T_FREE]
         if not frees or not live:
